@@ -14,8 +14,10 @@ CONSTANTS
   Kinds = {"alterDatabase", "createIndex", "alterIndex", "loadPartitions"}
   WithFail = TRUE
   WithInflight = TRUE
+  WithSwap = TRUE
   WithRestart = TRUE
   AlterDbChecked = TRUE
   AlterIdxRecheck = TRUE
   DropGuarded = TRUE
+  CreateFromDrop = TRUE
   TabT = {0, 1, 2, 3}
